@@ -14,7 +14,7 @@ pub open spec fn opt_view<'t, D: Doc>(r: Option<Node<'t, D>>) -> Option<GNode> {
 }
 
 /*@extract crates/core/src/matcher.rs :: trait Matcher
-only match_node_with_env,potential_kinds
+only match_node_with_env,potential_kinds,get_match_len
 ret match_node_with_env r
 sig match_node_with_env <<<
     ensures matcher_post(self.spec_match(_node@, cow_env(*old(_env))), opt_view(r), cow_env(*old(_env)), cow_env(*final(_env)))
@@ -23,6 +23,11 @@ before match_node_with_env "fn match_node_with_env" <<<
   /// reference semantics of this matcher on (node, env): None = no match, Some((n, e)) = match
   /// reporting node n with environment e
   spec fn spec_match(&self, node: GNode, env: GEnv) -> Option<(GNode, GEnv)>;
+>>>
+ret get_match_len ml
+sig get_match_len <<<
+    // C03: the length reported for the matched prefix never exceeds the node
+    ensures ml matches Some(l) ==> _node@.start + l <= _node@.end
 >>>
 ret potential_kinds k
 sig potential_kinds <<<
